@@ -81,7 +81,7 @@ TOGGLES = [
     ("t_esc_query", ESC),
     ("t_esc_frag", ESC),
     ("t_esc_auth", ["raw", "letter"]),
-    ("t_wrap", ["", "left", "right", "tabs", "nbsp"]),
+    ("t_wrap", ["", "left", "right", "tabs", "nbsp", "ctrl-space-left", "space-ctrl-right"]),
     ("t_ctrl", ["", "after-scheme", "in-host", "before-path", "end-c1", "in-query-del"]),
     ("t_dot", ["", "lead-dot", "lead-pair", "lead-empty", "mid-dot", "mid-pair", "mid-empty"]),
     ("t_empty", ["", "?", "#", "?#"]),
@@ -184,6 +184,10 @@ def build_variant(case, toggled=True):
         url = "\t" + url + "\r\n"
     elif tw == "nbsp":
         url = " " + url + " "
+    elif tw == "ctrl-space-left":
+        url = "\x00 " + url
+    elif tw == "space-ctrl-right":
+        url = url + " \x7f"
     return url
 
 
